@@ -568,6 +568,9 @@ static void run_c08(long cases) {
 
 int main(int argc, char** argv) {
     g_opts = parse_opts(argc, argv);
+#if LV_INTERPOSE
+    lv::ip().pollDelayMaxMs = (int)g_opts.num("poll-delay", 0);   // see live.h: loop threads come back to their pollers late
+#endif
     install_handlers();
     std::string prop = g_opts.get("prop", "c14s");
     if (prop == "c14s") run_c14s(g_opts.cases);
@@ -577,6 +580,9 @@ int main(int argc, char** argv) {
     else run_more(prop, g_opts.cases);
     g_distinct.flush();
     Json s; s.str("t", "sum").num("evaluations", g_evals);
+#if LV_INTERPOSE
+    if (lv::ip().pollDelays.load()) g_counts["poll_delays_injected"] = lv::ip().pollDelays.load();
+#endif
     Json c; for (auto& kv : g_counts) c.num(kv.first, kv.second);
     s.raw("counts", c.done());
     emit(s.done());
